@@ -454,6 +454,8 @@ def _run(report):
     report.add_out_of_reach("evaluate_expression / evaluate_quantity / *_kelvin_quantity as for-all proofs",
                             "they go through Expr.atoms / Expr.subs / evalf / sympy's own convert_to; only a bounded executed stand-in is given")
     report.extra["callee_contracts_used"] = sorted(set().union(*[x.used_contracts for x in execs]))
+    from . import c04 as _c04
+    _c04.shared_callee_obligations(report, UNIT)
     from ..contracts import audit
     audit.run(report)
     report.trust("CPython 3.12 (subset of DESIGN 3.A)", "z3 5.1 / cvc5 1.4", "contracts of assert_equivalent_dimension (C04) and Quantity(expr) (C05)",
